@@ -51,7 +51,8 @@ def tree_hash(repo):
     drv = os.path.join(V, "driver", "src", "main.rs")
     paths.append(drv)
     for p in paths:
-        h.update(p.encode())
+        # relative names: two copies of the same tree (e.g. scratch copies with the same patch applied) share one cache entry
+        h.update(os.path.relpath(p, V if p == drv else repo).encode())
         with open(p, "rb") as fh:
             h.update(fh.read())
     return h.hexdigest()[:20]
@@ -67,12 +68,27 @@ def extract(repo, config="all", crate="vfs"):
     fcntl.flock(lock, fcntl.LOCK_EX)
     try:
         if os.path.exists(out) and os.path.getsize(out) > 0 and not os.environ.get("VFS_FACTS_NOCACHE"):
+            os.utime(out, None)  # mark as in use: concurrent runs on other trees only evict entries idle for hours
             return out
-        # drop stale cache entries for this config
+        # evict cache entries of this config that no run has touched for 2 hours (never a file another concurrent
+        # check may be about to read: every cache hit refreshes the mtime under this lock)
+        now = time.time()
+        entries = []
         for f in os.listdir(cache):
-            if f.startswith("%s-%s-" % (crate, config)):
+            if f.startswith("%s-" % crate):
+                fp_ = os.path.join(cache, f)
                 try:
-                    os.remove(os.path.join(cache, f))
+                    entries.append((os.path.getmtime(fp_), os.path.getsize(fp_), fp_))
+                except OSError:
+                    pass
+        entries.sort()
+        total = sum(e[1] for e in entries)
+        for mt, sz, fp_ in entries:
+            # idle for 2 hours, or (cache above 3 GB) the least recently used ones that have been idle for 10 minutes
+            if now - mt > 7200 or (total > 3 << 30 and now - mt > 600):
+                try:
+                    os.remove(fp_)
+                    total -= sz
                 except OSError:
                     pass
         cmd = [os.path.join(V, "bin", "extract.sh"), os.path.join(repo, "Cargo.toml"), crate, out] + CONFIGS[config]
@@ -148,10 +164,6 @@ def thorough_extras(pid, mod, rep, repo, ctx):
             c3["repo"] = r
             mod.run(f3, r3, "quick", c3)
             T._TRACERS.clear()
-            try:
-                os.remove(fp)
-            except OSError:
-                pass
             return sorted(o["key"] for o in r3.violations() if o["key"] not in base)
         finally:
             shutil.rmtree(w, ignore_errors=True)
